@@ -139,6 +139,7 @@ func checkC10(c *Check) {
 
 	// ---- R1 flow-level: every json encode in package queue
 	c.Rule("R1", "every JSON encoding of a record that can reach credentials is dominated by: fresh copy of the metadata, Conn = nil on the copy, and no later store to the copy's connection state", 1)
+	c.Rule("R1c", "the persisted copy differs from the live record in nothing but the stripped connection state", 1)
 	encSites := 0
 	p.AllFuncs([]*packagesPkg{qpk}, func(fi *FuncInfo) {
 		info := fi.Info()
@@ -234,6 +235,45 @@ func checkC10(c *Check) {
 				_ = w
 			}
 			c.Hold("R1", key, call.Pos(), msg == "", msg)
+			// R1c: the persisted copy differs from the live record in nothing but the stripped connection state
+			other := r.Assigns(func(lhs, rhs ast.Expr) bool {
+				if !mentions(info, lhs, opObj) {
+					return false
+				}
+				root := lhs
+				for {
+					switch y := ast.Unparen(root).(type) {
+					case *ast.SelectorExpr:
+						root = y.X
+						continue
+					case *ast.IndexExpr:
+						root = y.X
+						continue
+					}
+					break
+				}
+				if objOf(info, root) != opObj {
+					return false
+				}
+				if isOnCopy(lhs) {
+					return false // the initial value copy `metaCopy := *meta`
+				}
+				if isOnCopy(lhs, "MsgMeta") {
+					cc, ok := ast.Unparen(rhs).(*ast.CallExpr)
+					return !(ok && methodName(cc) == "DeepCopy")
+				}
+				if isOnCopy(lhs, "MsgMeta", "Conn") {
+					return !(rhs != nil && isNilIdent(info, rhs))
+				}
+				return true
+			})
+			msg2 := ""
+			for _, o := range other {
+				if f, _ := r.Reachable([]Pt{o}, false, isEnc, nil); f {
+					msg2 = "the record written to the spool is altered before encoding (" + exprStr(o.Node().(*ast.AssignStmt).Lhs[0]) + "): what a retry or a restart reads back is not the envelope that was accepted"
+				}
+			}
+			c.Hold("R1c", fi.Name()+":encode:only-conn-stripped", call.Pos(), msg2 == "", msg2)
 		}
 	})
 	if encSites == 0 {
@@ -312,6 +352,52 @@ func checkC10(c *Check) {
 			return true
 		})
 		c.Hold("R2", "readMessageMeta:type", rr.FI.Decl.Pos(), okT, "the reader decodes into a type other than the one the writer encodes")
+	}
+
+	// ---- R3e: per-message flags are finalised after MAIL (TLS-Required override at DATA, quarantine by the checks), so
+	// every layer down to the spool must keep the very metadata object it was given
+	c.Rule("R3e", "because the endpoint and the checks write per-message flags after the delivery was started, the pipeline and the queue keep the metadata object they were given (no copy at Start)", 3)
+	lateWriters := 0
+	for _, a := range [][3]string{{smtpEndpRel, "Session", "Data"}, {smtpEndpRel, "Session", "LMTPData"}, {pipelineRel, "checkRunner", "applyResults"}} {
+		if lw := c.In(a[0], a[1], a[2]); lw != nil {
+			lateWriters += len(lw.Assigns(func(l, _ ast.Expr) bool {
+				return isField(lw.Info, l, "MsgMetadata", "TLSRequireOverride") || isField(lw.Info, l, "MsgMetadata", "Quarantine")
+			}))
+		}
+	}
+	if lateWriters == 0 {
+		c.HoldConst("R3e", "no-late-writers", token.NoPos, true, "")
+	} else {
+		sameObj := func(r *RuleCtx, key string, want func(e ast.Expr) bool, where string) {
+			ok := false
+			ast.Inspect(r.FI.Decl.Body, func(n ast.Node) bool {
+				if kv, isKV := n.(*ast.KeyValueExpr); isKV {
+					if id, isID := kv.Key.(*ast.Ident); isID && (id.Name == "MsgMeta" || id.Name == "msgMeta") && want(kv.Value) {
+						ok = true
+					}
+				}
+				return true
+			})
+			c.Hold("R3e", key, r.FI.Decl.Pos(), ok, where+" stores a copy of the message metadata instead of the object it was given: flags set later in the transaction (TLS-Required: No at DATA, quarantine) never reach the spool / the downstream target")
+		}
+		if r := c.need("R3e", queueRel, "Queue", "Start"); r != nil {
+			prm := paramObjs(r.FI)["msgMeta"]
+			sameObj(r, "Queue.Start:same-object", func(e ast.Expr) bool { return prm != nil && objOf(r.Info, e) == prm }, "the queue's Start")
+		}
+		if r := c.need("R3e", pipelineRel, "MsgPipeline", "Start"); r != nil {
+			prm := paramObjs(r.FI)["msgMeta"]
+			sameObj(r, "MsgPipeline.Start:same-object", func(e ast.Expr) bool { return prm != nil && objOf(r.Info, e) == prm }, "the pipeline's Start")
+		}
+		if r := c.need("R3e", pipelineRel, "msgpipelineDelivery", "getDelivery"); r != nil {
+			ok := false
+			ast.Inspect(r.FI.Decl.Body, func(n ast.Node) bool {
+				if call, isCall2 := n.(*ast.CallExpr); isCall2 && qname(callee(r.Info, call)) == modulePkg+".DeliveryTarget.Start" && len(call.Args) == 3 {
+					ok = isField(r.Info, call.Args[1], "msgpipelineDelivery", "msgMeta")
+				}
+				return true
+			})
+			c.Hold("R3e", "getDelivery:passes-same-object", r.FI.Decl.Pos(), ok, "the pipeline starts its targets with something other than the metadata object it holds")
+		}
 	}
 
 	// ---- R3
